@@ -192,6 +192,20 @@ impl TrackerChild {
         self.stdout_lines.lock().unwrap().iter().find(|l| l.contains(pat)).cloned()
     }
 
+    /// Like `line_with`, but gives the stdout reader thread up to `ms` to catch up (used after the child has exited)
+    pub fn line_with_wait(&self, pat: &str, ms: u64) -> Option<String> {
+        let t0 = Instant::now();
+        loop {
+            if let Some(l) = self.line_with(pat) {
+                return Some(l);
+            }
+            if t0.elapsed() > Duration::from_millis(ms) {
+                return None;
+            }
+            std::thread::sleep(Duration::from_millis(10));
+        }
+    }
+
     /// Wait until the tracker accepts TCP connections (http / ws) or answers a UDP connect; false if it exited first
     pub fn wait_ready(&mut self, secs: u64) -> bool {
         let t0 = Instant::now();
